@@ -31,6 +31,15 @@ RULES = {
 }
 
 
+class Tok(tuple):
+    """An item: (sender, k).  Every other one is FALSY (like an all-default protobuf message, which is
+    what really travels through a request channel) - an item must never be judged by its truth value."""
+    __slots__ = ()
+
+    def __bool__(self) -> bool:
+        return self[1] % 2 == 1
+
+
 class _Run:
     def __init__(self, tape, trace, stats):
         self.tape = tape
@@ -212,12 +221,36 @@ class _Run:
             finally:
                 self.in_op[a] = None
             return
-        src = Src() if mode == 1 else ASrc()
+        if mode == 5:
+            def _gen():
+                for k, it in enumerate(items):
+                    run.ev(a, "inv", "send", it)
+                    yield it
+                    run.ev(a, "ret", "send", it)          # asked for the next one: the put returned
+                    run._maybe_cancel_after_send(a, cfg)
+                if cfg["close"] and run.close_seq is None:
+                    run.close_seq = run.ev(a, "inv", "close", "via send_from")
+                    run.close_ret_seq = run.close_seq
+            src = _gen()
+        elif mode == 6:
+            async def _agen():
+                for k, it in enumerate(items):
+                    await run.pause("src-pause")
+                    run.ev(a, "inv", "send", it)
+                    yield it
+                    run.ev(a, "ret", "send", it)
+                    run._maybe_cancel_after_send(a, cfg)
+                if cfg["close"] and run.close_seq is None:
+                    run.close_seq = run.ev(a, "inv", "close", "via send_from")
+                    run.close_ret_seq = run.close_seq
+            src = _agen()
+        else:
+            src = Src() if mode == 1 else ASrc()
         self.in_op[a] = "send_from"
         self.ev(a, "inv", "send_from", (len(items), cfg["close"]))
         closing = cfg["close"]
         try:
-            if closing:
+            if closing and mode in (1, 2):
                 # close=True closes inside the call; record the close invocation ourselves at
                 # the moment the source is exhausted (the last completion event precedes it).
                 orig = src._next
@@ -237,7 +270,7 @@ class _Run:
         except Exception as e:  # noqa: BLE001
             self.ev(a, "raise", "send_from", type(e).__name__)
         else:
-            self.ev(a, "ret", "send_from", src.k)
+            self.ev(a, "ret", "send_from", getattr(src, "k", len(items)))
         finally:
             self.in_op[a] = None
 
@@ -435,7 +468,7 @@ class _Run:
             return
         await self.pause()
         a = "late"
-        it = ("late", 0)
+        it = Tok(("late", 0))
         if cfg["mode"] == 0:
             self.ev(a, "inv", "send", it)
             try:
@@ -521,10 +554,10 @@ class _Run:
         n_recv = 1 + tape.draw(3, "n_recv")
         scfg = []
         for s in range(n_send):
-            mode = tape.draw(5, "send-mode")
+            mode = tape.draw(7, "send-mode")
             n = 1 + tape.draw(3, "n_items")
             close = bool(tape.draw(3, "send_from-close") == 2) if mode else False
-            scfg.append(dict(mode=mode, items=[(f"s{s}", k) for k in range(n)], close=close,
+            scfg.append(dict(mode=mode, items=[Tok((f"s{s}", k)) for k in range(n)], close=close,
                              cancel_after_send=None))
         rcfg = [dict(mode=tape.weighted([3, 3, 2, 2, 2, 2], "recv-mode")) for _ in range(n_recv)]
         closer = dict(when=tape.draw(5, "closer"))       # 0 idiomatic, 1..3 arbitrary, 4 never
@@ -600,6 +633,10 @@ class _Run:
         self._check_no_stranded("post-done receive")
         if self.end.get(a) in ("ChannelDone", "end-of-iteration"):
             self.stats["probe:receive-on-done-channel"] += 1
+        # an actor of the harness that died of an exception is a harness failure, never silence
+        for name, tk in list(self.send_tasks.items()) + [(t.get_name(), t) for t in aux]:
+            if tk.done() and not tk.cancelled() and tk.exception() is not None:
+                raise tk.exception()
         self._oracle()
         return self._nontrivial(), loop.steps, loop.time()
 
@@ -712,7 +749,7 @@ class ChanSim(Simulator):
     rules = RULES
     generation_rule = ("Each run draws from the decision tape: scheduling policy (P0 stock FIFO with tape-ordered "
                        "timer ties / P1 external arrivals between any two handles / P2 any ready handle next), "
-                       "buffer limit 0/1/2, 1-2 senders (send per item, send_from over an instrumented iterator / async generator / a real list / a real tuple, "
+                       "buffer limit 0/1/2, 1-2 senders (send per item, send_from over an instrumented iterator / async iterator / real generator / real async generator / real list / real tuple; every other item is falsy, "
                        "optionally close=True) x 1-3 items, 1-3 receivers (receive loop, async for, wait_for(receive), "
                        "wait_for(__anext__), the real ServiceStub._send_messages, the real ServiceStub._stream_stream whose response "
                        "side may fail so that the library cancels its own sender task), a closer (idiomatic, at an "
@@ -724,7 +761,7 @@ class ChanSim(Simulator):
                        "CPython asyncio Task/Future/Queue/wait_for/timeout"]
     components_stub = ["event-loop scheduler, selector and clock (SimLoop)",
                        "grpclib channel/stream handed to _send_messages and _stream_stream (recording fakes)"]
-    assumptions = ["CPython 3.12 asyncio.Queue semantics", "items are never None",
+    assumptions = ["CPython 3.12 asyncio.Queue semantics", "items are never None (but every other one is falsy)",
                    "sampling of schedules, not enumeration"]
     tiers = {
         "quick": dict(runs=120000, chunk=1000, wall_cap=240, det_sample=400),
